@@ -544,6 +544,48 @@ func (env *CEnv) call(e *CExpr) Val {
 			return sv
 		}
 		fail("%s: abstract() of %T", e.Pos, v)
+	case "maphas", "mapval":
+		v := env.eval(e.Args[0])
+		fv, ok := v.(FV)
+		if !ok {
+			fail("%s: %s of a value that is not a map", e.Pos, e.X.Name)
+		}
+		kv, ok := env.eval(e.Args[1]).(SV)
+		if !ok {
+			fail("%s: map key kind", e.Pos)
+		}
+		mt := fv.Typ.Underlying().(*types.Map)
+		if e.X.Name == "maphas" {
+			return boolSV(App("select", SBool, fv.Present, kv.T))
+		}
+		return intSV(App("select", c.sortOf(mt.Elem()), fv.Value, kv.T))
+	case "xofarr", "xoflen", "xofpos":
+		v := env.eval(e.Args[0])
+		xv, ok := v.(XV)
+		if !ok {
+			fail("%s: %s of a value that is not an XOF object", e.Pos, e.X.Name)
+		}
+		switch e.X.Name {
+		case "xofarr":
+			return SV{xv.Arr, nil}
+		case "xoflen":
+			return intSV(xv.Len)
+		}
+		return intSV(xv.RPos)
+	case "store":
+		a := env.eval(e.Args[0])
+		var at *Term
+		switch x := a.(type) {
+		case SV:
+			at = x.T
+		case AV:
+			at = x.T
+		default:
+			fail("%s: store on %T", e.Pos, a)
+		}
+		iv := env.evalInt(e.Args[1])
+		vv := env.eval(e.Args[2])
+		return SV{Store(at, iv, c.valToTerm(vv)), nil}
 	case "arr":
 		// arr(x): the SMT array term behind an array-like value (whole backing store for slices)
 		v := env.asView(env.eval(e.Args[0]), e)
